@@ -350,7 +350,15 @@ func c09X4(r *Run, rep *core.Report) {
 // those arguments on: the store of each duration parameter into the config it builds is executed on every path to
 // the constructor's return - never skipped for some values (a zero or negative cleanup interval must reach the
 // config as it is: it is what disables the janitor; a non-positive default expiration means 'never expires').
-func defaultCtorFlow(r *Run, rep *core.Report, rule string) {
+// ctorArgVerdict: whether the idx-th duration argument of a default constructor reaches the config unconditionally.
+type ctorArgVerdict struct {
+	F   *ssa.Function
+	Arg int
+	OK  bool
+}
+
+func defaultCtorFlow(r *Run, rep *core.Report, rule string) []ctorArgVerdict {
+	var verdicts []ctorArgVerdict
 	n := 0
 	for _, f := range r.P.Funcs {
 		if f.Pkg != r.P.Cache || f.Parent() != nil || f.Signature.Recv() != nil {
@@ -390,6 +398,7 @@ func defaultCtorFlow(r *Run, rep *core.Report, rule string) {
 			cons := fn(f) + " hands " + fmt.Sprintf("a%d", paramIndexOf(f, q)) + " to the config"
 			if len(stores[q]) == 0 {
 				rep.Fail(rule, cons, r.P.Pos(f.Pos()), "the duration argument "+q.Name()+" is never written to the config the constructor builds")
+				verdicts = append(verdicts, ctorArgVerdict{f, paramIndexOf(f, q), false})
 				continue
 			}
 			all := false
@@ -404,58 +413,91 @@ func defaultCtorFlow(r *Run, rep *core.Report, rule string) {
 					all = true
 				}
 			}
+			verdicts = append(verdicts, ctorArgVerdict{f, paramIndexOf(f, q), all})
 			rep.Check(all, rule, cons, r.P.InstrPos(stores[q][0]), "the argument is stored into the config on every path to the return",
 				"the duration argument "+q.Name()+" reaches the config only on some paths (it is overridden by a default for other values): a non-positive cleanup interval no longer disables the janitor / a non-positive default expiration is replaced")
 		}
 	}
 	rep.MinCount(rule, "duration arguments of default constructors", n, 4)
+	return verdicts
 }
 
 // optionFlow: every option function With<Field>[Of](x) returns a closure that stores x - the option's own argument,
 // whatever its value - into config.<Field>, on every path.
 func optionFlow(r *Run, rep *core.Report, rule string) {
 	n := 0
-	// option functions: With<Field>[Of](x) returns a closure storing x into config.<Field>
-	for _, f := range r.P.Funcs {
-		if f.Pkg != r.P.Cache || f.Parent() == nil || f.Parent().Signature.Recv() != nil {
+	// option functions: With<Field>[Of](x) returns a function that, applied to a config, replaces exactly
+	// config.<Field> by x - decided by evaluating the option constructor and then the function it returns (a function
+	// literal, a bound method of a small option type, ...) on a symbolic config
+	for _, par := range r.P.Funcs {
+		if par.Pkg != r.P.Cache || par.Parent() != nil || par.Signature.Recv() != nil || par.Blocks == nil {
 			continue
 		}
-		par := f.Parent()
 		if par.Object() == nil || !par.Object().Exported() || !strings.HasPrefix(par.Name(), "With") {
+			continue
+		}
+		if par.Signature.Results().Len() != 1 || !isFuncTyped(par.Signature.Results().At(0).Type()) || len(par.Params) != 1 {
 			continue
 		}
 		n++
 		rep.Fn(fn(par))
 		want := strings.TrimSuffix(strings.TrimPrefix(par.Name(), "With"), "Of")
-		stores := 0
-		okv := true
-		why := ""
-		core.Instrs(f, func(in ssa.Instruction) {
-			st, ok := in.(*ssa.Store)
-			if !ok {
-				return
+		okv, why := true, ""
+		judged := 0
+		it := newInterp(r, false)
+		it.FieldRole = nil
+		for _, p := range it.Run(par) {
+			if p.Panic {
+				continue
 			}
-			a := core.Addr(st.Addr)
-			if _, isParam := a.Root.(*ssa.Parameter); !isParam || a.Field == "" {
-				return
+			if len(p.Ret) != 1 || p.Ret[0].Op != "closure" {
+				okv, why = false, "the option constructor does not return a resolvable function"
+				continue
 			}
-			stores++
-			if a.Field != want {
-				okv, why = false, "writes config field "+a.Field
+			cl := p.Ret[0]
+			cf, _ := cl.Fn.(*ssa.Function)
+			if cf == nil || cf.Blocks == nil {
+				okv, why = false, "the option constructor does not return a resolvable function"
+				continue
 			}
-			// unconditional: an option that skips the write for some values silently keeps the default
-			core.Instrs(f, func(in2 ssa.Instruction) {
-				if ret, isRet := in2.(*ssa.Return); isRet && !core.Dominates(st, ret) {
-					okv, why = false, "writes its field only on some paths (for other argument values the default stays in force)"
+			mem := map[int]*sym.Term{}
+			for k, v := range p.Mem {
+				mem[k] = v
+			}
+			const cfgCell = 900000
+			mem[cfgCell] = sym.Leaf("cfgin", "")
+			it2 := newInterp(r, false)
+			it2.FieldRole = nil
+			for _, q := range it2.RunWith(cf, []*sym.Term{{Op: "cell", K: fmt.Sprint(cfgCell)}}, cl.Bind, mem) {
+				if q.Panic {
+					continue
 				}
-			})
-			// value: the captured argument of the option constructor
-			v := resolve(st.Val, 0)
-			if p, isP := v.(*ssa.Parameter); !isP || p.Parent() != par {
-				okv, why = false, "stores "+st.Val.Name()+" which is not the option's own argument"
+				judged++
+				after := q.Mem[cfgCell]
+				if after == nil || after.Op != "struct" {
+					okv, why = false, "writes its field only on some paths (for other argument values the default stays in force)"
+					continue
+				}
+				hit := false
+				for i, fname := range after.Names {
+					v := after.Args[i]
+					if fname == want {
+						hit = true
+						if v.String() != "param:a0" {
+							okv, why = false, "stores "+v.String()+" into config."+want+", which is not the option's own argument"
+						}
+						continue
+					}
+					if v.String() != sym.Mk("field", fname, sym.Leaf("cfgin", "")).String() {
+						okv, why = false, "writes config field "+fname
+					}
+				}
+				if !hit {
+					okv, why = false, "the config has no field "+want
+				}
 			}
-		})
-		rep.Check(okv && stores == 1, rule, fn(par)+" sets its own field", r.P.Pos(par.Pos()), "option writes config."+want+" from its own argument", "option function does not write exactly its own config field ("+want+") from its own argument: "+why)
+		}
+		rep.Check(okv && judged > 0, rule, fn(par)+" sets its own field", r.P.Pos(par.Pos()), "option writes config."+want+" from its own argument", "option function does not write exactly its own config field ("+want+") from its own argument: "+why)
 	}
 	rep.MinCount(rule, "option functions", n, 8)
 }
